@@ -58,7 +58,10 @@ def check(rep, tier, seed):
                 cur = l[5:].strip()
             elif l.startswith("op ps:"):
                 t = l.split()
-                p, rc, tell = int(t[1][3:]), int(t[3]), int(t[5])
+                try:
+                    p, rc, tell = int(t[1][3:]), int(t[3]), int(t[5])
+                except (ValueError, IndexError):
+                    continue
                 if rc == 0 and tell != p:
                     bad_prop.append({"kind": "pcm seek did not land on its target", "case": cur, "line": l,
                                      "cases_file": os.path.join(wd, "s%d" % i, "vf.cases")})
